@@ -345,6 +345,21 @@ class _Run:
         if isinstance(s, ast.Assert):
             self.expr(s.test, env)
             return env
+        if isinstance(s, ast.Match):
+            subj = self.expr(s.subject, env)
+            out = None
+            exhaustive = False
+            for c in s.cases:
+                e = dict(env)
+                for n in ast.walk(c.pattern):
+                    for nm in ([n.name] if isinstance(n, (ast.MatchAs, ast.MatchStar)) and n.name else []) + ([n.rest] if isinstance(n, ast.MatchMapping) and n.rest else []):
+                        e[nm] = elem(subj).join(subj)
+                if c.guard is not None:
+                    self.expr(c.guard, e)
+                if isinstance(c.pattern, ast.MatchAs) and c.pattern.pattern is None and c.guard is None:
+                    exhaustive = True
+                out = self.joinenv(out, self.block(c.body, e))
+            return out if exhaustive else self.joinenv(out, dict(env))
         raise Inconclusive("EFF: statement kind %s in %s" % (type(s).__name__, self.f.qual))
 
     def assign(self, t, v, env, node):
